@@ -119,6 +119,7 @@ TypeOK == /\ arr \in Arrays /\ idx \in -1..(MaxLen + MaxCalls) /\ pos \in -1..Ma
 
 \* the property: the cursor returns what the contract returns wherever the contract specifies it
 Conforms == ~Diverged
+ConformsNonEmpty == Len(arr) > 0 => ~Diverged       \* the same, leaving the empty sample slice aside
 
 \* sanity of the contract itself (checked on the whole space)
 RefSane ==
